@@ -3079,7 +3079,8 @@ void try_reset (object_t * ob) {
 
 #ifdef F_FIRST_INVENTORY
 object_t* first_inventory (svalue_t * arg) {
-  object_t *ob;
+  object_t *ob, *env;
+  int show_hidden = 1;
 
   if (arg->type == T_STRING)
     {
@@ -3091,21 +3092,19 @@ object_t* first_inventory (svalue_t * arg) {
     ob = arg->u.ob;
   if (ob == 0)
     bad_argument (arg, T_STRING | T_OBJECT, 1, F_FIRST_INVENTORY);
-  ob = ob->contains;
-  while (ob)
-    {
-      if (ob->flags & O_HIDDEN)
-        {
-          if (object_visible (ob))
-            {
-              return ob;
-            }
-        }
-      else
-        return ob;
-      ob = ob->next_inv;
-    }
-  return 0;
+  env = ob;
+  /* The master is asked once and before the walk: valid_hide() is LPC code, which can
+   * move or destruct the objects we are stepping through (and env: it is empty then). */
+  for (ob = env->contains; ob; ob = ob->next_inv)
+    if (ob->flags & O_HIDDEN)
+      {
+        show_hidden = object_visible (ob);
+        break;
+      }
+  ob = env->contains;
+  while (ob && (ob->flags & O_HIDDEN) && !show_hidden)
+    ob = ob->next_inv;
+  return ob;
 }
 #endif
 
